@@ -4,6 +4,9 @@ from __future__ import annotations
 
 import hashlib
 import json
+import os
+import traceback
+from pathlib import Path
 from collections import Counter
 from dataclasses import dataclass, field
 from typing import Any, Callable, Optional
@@ -144,3 +147,41 @@ class Sub:
     steps: dict = field(default_factory=lambda: {"quick": 12, "thorough": 30})
     sharded: bool = True  # run in every thorough shard (False: only in shard 0)
     required_classes: tuple = ()  # classes that must be non-empty, else harness error (vacuity guard)
+
+
+SRC = Path(os.environ.get("VERIF_REPO", "/repo")).resolve() / "src"
+
+
+def _passes_through_sut(tb) -> bool:
+    """Does the traceback contain a frame of the code under test?"""
+    src = str(SRC)
+    while tb is not None:
+        if tb.tb_frame.f_code.co_filename.startswith(src):
+            return True
+        tb = tb.tb_next
+    return False
+
+
+def guarded(check, case, stats):
+    """Call a check; turn unexpected exceptions that escaped the code under test into violations."""
+    import hypothesis.errors
+
+    try:
+        check(case, stats)
+    except Violation as v:
+        if v.case is None:
+            v.case = case
+        raise
+    except (hypothesis.errors.HypothesisException, KeyboardInterrupt, MemoryError, HarnessError):
+        raise
+    except BaseException as e:  # noqa: BLE001
+        if isinstance(e, (SystemExit, GeneratorExit)):
+            raise
+        if e.__class__.__name__ in {"UnsatisfiedAssumption", "StopTest", "Frozen"}:
+            raise
+        if _passes_through_sut(e.__traceback__):
+            tb = "".join(traceback.format_exception(type(e), e, e.__traceback__)[-6:])
+            raise Violation(f"unexpected {type(e).__name__} escaped the code under test: {e}\n{tb}", case) from e
+        raise HarnessError(
+            "exception inside the harness: " + "".join(traceback.format_exception(type(e), e, e.__traceback__))
+        ) from e
